@@ -5,6 +5,7 @@ pub mod c17;
 pub mod c18;
 pub mod c19;
 pub mod pk;
+pub mod mdns;
 
 use crate::core::Case;
 
@@ -15,6 +16,8 @@ pub fn cases(prop: &str, tier: &str, seed: u64) -> Option<Vec<Case>> {
         "C08" => c08::cases(tier, seed),
         "C18" => c18::cases(tier, seed),
         "C19" => c19::cases(tier, seed),
+        "C13" => mdns::c13(tier, seed),
+        "C20" => mdns::c20(tier, seed),
         "C17" => c17::cases(tier, seed),
         "C02" => pk::c02(tier, seed),
         "C03" => pk::c03(tier, seed),
